@@ -163,6 +163,18 @@ func zzNewSyncEnv(ctx context.Context, K, stored, getterErrs int, gates bool) *z
 	env.s = s
 	zz.Assert(s.Start(ctx) == nil, "Start succeeds")
 	env.st.gateHead = gates && zz.Param("STOREGATES", 0) == 1
+	zh.HeightHook = nil
+	if gates && zz.Param("HGATE", 0) == 1 {
+		// every Height() call on one chosen canonical header is a scheduling point: lets a delivery land
+		// inside the Syncer's own steps on that header (e.g. between the removal from the pending set and
+		// the update of the store's head)
+		gated := 2 + zz.Choice("hgate", K-1)
+		zh.HeightHook = func(h *zh.Hdr) {
+			if h.ID == gated {
+				zz.Gate("hdr.height")
+			}
+		}
+	}
 	return env
 }
 
